@@ -95,16 +95,21 @@ fn check_fault(f: &Fault, obs: &Obs) -> CheckResult {
             let mut dev = LogDev::default();
             dev.default_plan = UnitPlan { respond: vec![crate::rec::RespDatum::Str("0123456789".into())], ..Default::default() };
             let mut ctx = Context::default();
-            let res = match cap % 4 {
-                0 => FIXTREE.run(b":A?", &mut dev, &mut ctx, &mut ArrayVec::<u8, 0>::new()),
-                1 => FIXTREE.run(b":A?", &mut dev, &mut ctx, &mut ArrayVec::<u8, 1>::new()),
-                2 => FIXTREE.run(b":A?", &mut dev, &mut ctx, &mut ArrayVec::<u8, 11>::new()),
-                _ => FIXTREE.run(b":A?;:A?", &mut dev, &mut ctx, &mut ArrayVec::<u8, 13>::new()),
-            };
+            // every capacity below the full response "0123456789";"0123456789"\n (26 bytes)
+            struct V<'a>(&'a mut LogDev);
+            impl<'a> crate::cap::CapVisitor for V<'a> {
+                type Out = Result<(), Error>;
+                fn visit<const N: usize>(&mut self) -> Self::Out {
+                    let mut ctx = Context::default();
+                    FIXTREE.run(b":A?;:A?", self.0, &mut ctx, &mut ArrayVec::<u8, N>::new())
+                }
+            }
+            let _ = &mut ctx;
+            let res = crate::cap::dispatch((*cap % 26) as usize, &mut V(&mut dev)).unwrap();
             obs.nontrivial(f);
             return match res {
                 Err(e) => judge_error(&e, true, "response buffer exhausted", obs),
-                Ok(()) => fail!("fault-accepted", "a 12-byte response fitted a smaller buffer"),
+                Ok(()) => fail!("fault-accepted", "a 26-byte response fitted a buffer of {} bytes", cap % 26),
             };
         }
     };
